@@ -40,8 +40,14 @@ def dumpSt (s : St) : List String :=
   let fr := (s.ents.filter fun x => x.2.hl ≠ 0).map fun x =>
     (tokOfPath x.1, tokOfEntry (tokOfPath x.1) ((find s x.1).getD x.2))
   let fr := fr.foldr insertStr []
-  let ks := ([1, 2, 3].filterMap fun k => (kvGet s k).map fun r => tokOfEntry (toString k) r)
-  ["T=" ++ joinOr (rows.map (·.2)), "F=" ++ joinOr (fr.map (·.2)), "K=" ++ joinOr ks]
+  let lr := ((s.ents.filter fun x => x.2.hl ≠ 0).map fun x =>
+    (tokOfPath x.1, match x.1 with
+      | [] => tokOfPath x.1 ++ ":gone"
+      | n :: par => match (children s par).find? (·.1 == n) with
+        | some c => tokOfEntry (tokOfPath x.1) c.2
+        | none => tokOfPath x.1 ++ ":gone")).foldr insertStr []
+  let ks := ([1, 2, 3, 4].filterMap fun k => (kvGet s k).map fun r => tokOfEntry (toString k) r)
+  ["T=" ++ joinOr (rows.map (·.2)), "F=" ++ joinOr (fr.map (·.2)), "L=" ++ joinOr (lr.map (·.2)), "K=" ++ joinOr ks]
 
 /-! ### parsing an operation line -/
 
@@ -66,6 +72,7 @@ structure Obs where
   d : List Nat
   post : St                        -- T and K
   fview : List (RPath × Entry)     -- F
+  lview : List (RPath × Entry)     -- L
   complete : Bool                  -- false when the case was cut (diverge): no dump
 
 def parseRows (s : String) : List (String × Entry) :=
@@ -87,6 +94,7 @@ def parseObs (outs : List String) : Obs :=
   { res := resOfTok (outs.getD 0 ""), q := chunksOfTok (field outs "q="), d := chunksOfTok (field outs "d="),
     post := { ents := t.map fun x => (pathOfTok x.1, x.2), kv := k.map fun x => (tokNat x.1, x.2) },
     fview := f.map fun x => (pathOfTok x.1, x.2),
+    lview := (parseRows (field outs "L=")).map fun x => (pathOfTok x.1, x.2),
     complete := outs.any (·.startsWith "T=") }
 
 /-! ### the generic driver step -/
